@@ -309,6 +309,22 @@ def _shard(ctx, rng, ovf):
             for argv3 in (["test", "-d", "{S}", "-a"], ["test", "-r", "{S}/r.guard", "-t", "{S}/tests", "-a"]):
                 res = ctx.w.run({"k": "cli", "argv": argv3 + (["-o", fmt3] if fmt3 else []), "files": fl3})
                 judge(ctx, "test-several-files", res, dict(case, channel="test-several-files", files=fl3, argv=argv3 + (["-o", fmt3] if fmt3 else [])), "doc:" + name)
+    # ------------------------------------------------ every built-in function on unusual values (empty string, blanks, non-ASCII, long text, wrong kinds): a result
+    #                                                  or a diagnostic, never a crash
+    if ctx.mine(4):
+        odd = ["", " ", "é", "日本", "\t", "a" * 5000, "%", "%zz", "%E9", "-", "+", ".", "1e999", "0x10", "nan", "{", "[", "null", 0, -1, 1.5, True, None, [], {}, [""], {"": ""}]
+        fns = ["count(%v)", "to_upper(%v)", "to_lower(%v)", "url_decode(%v)", "parse_int(%v)", "parse_float(%v)", "parse_boolean(%v)", "parse_string(%v)", "parse_char(%v)",
+               "json_parse(%v)", "join(%v, \",\")", "join(%v, \"\")", "regex_replace(%v, \"\", \"x\")", "regex_replace(%v, \"(\", \"x\")", "regex_replace(%v, \".\", \"$9\")",
+               "substring(%v, 0, 1)", "substring(%v, 1, 0)", "substring(%v, 0, 99999)", "parse_epoch(%v)"]
+        for vi, val in enumerate(odd):
+            dtext = json.dumps({"v": val, "l": [val, val]})
+            for fn in fns:
+                for src in ("v", "l[*]"):
+                    rtext_f = "rule f {\n    let v = %s\n    let r = %s\n    %%r exists\n    %%r !empty\n}\n" % (src, fn)
+                    case = {"kind": "pair", "rules": rtext_f, "data": dtext, "shape": "function-on-odd-value"}
+                    res = ctx.w.run({"k": "rc", "data": dtext, "rules": rtext_f, "verbose": False})
+                    judge(ctx, "run_checks", res, dict(case, channel="run_checks"), "fn:" + fn.split("(")[0])
+                    ctx.res.counts["functions_on_odd_values"] += 1
     # ------------------------------------------------ argument combinations: omitted / conflicting / unsupported options end in a usage or diagnostic error
     if ctx.mine(3):
         fl = {"r.guard": "rule r {\n    a == 1\n}\n", "d.json": '{"a": 2}', "t.json": '[{"name": "c", "input": {"a": 2}, "expectations": {"rules": {"r": "FAIL"}}}]',
